@@ -70,7 +70,7 @@ class Prover:
     """One per structural instance. `build(F)` callbacks receive a Front and return a list of
     (label, delta) in F.alg; they are called once per algebra and must be deterministic."""
 
-    def __init__(self, res, unit=Fraction(1, 2), tau=TAU, timeout_ms=10000, use_cvc5=True):
+    def __init__(self, res, unit=Fraction(1, 2), tau=TAU, timeout_ms=None, use_cvc5=True):
         self.res = res
         self.env = Env(unit)
         self.zalg = ZAlg(self.env)
@@ -78,7 +78,9 @@ class Prover:
         self.ZF = Front(self.env, self.zalg)
         self.LF = Front(self.env, self.lalg)
         self.tau = Fraction(tau)
-        self.timeout_ms = timeout_ms
+        import os
+
+        self.timeout_ms = timeout_ms or int(os.environ.get('VERIF_Z3_TIMEOUT_MS', '10000'))
         self.use_cvc5 = use_cvc5
         self.extra_constraints = []
         self.force_tolerance = False
